@@ -1,17 +1,21 @@
 #!/bin/bash
 # usage: tools/try_seed.sh <patch.diff> <tier> <ID> [<ID>...]
-# applies the patch to /repo, runs the given checks, reverts /repo.  Never commits anything in /repo.
+# applies the patch to the repository under test (default /repo; TRY_REPO=<worktree> to use a scratch worktree instead),
+# runs the given checks, reverts.  Never commits anything.
 set -u
 P=$(realpath "$1"); TIER=$2; shift 2
-cd /repo || exit 2
-if [ -n "$(git status --porcelain -- cotengra)" ]; then echo "/repo has local changes, refusing"; exit 2; fi
+R=${TRY_REPO:-/repo}
+cd $R || exit 2
+if [ -n "$(git status --porcelain -- cotengra)" ]; then echo "$R has local changes, refusing"; exit 2; fi
 git apply "$P" || { echo "patch does not apply"; exit 2; }
-trap 'git -C /repo checkout -- . ' EXIT
-cd /verif
+trap "git -C $R checkout -- . " EXIT
+cd "$(dirname "$0")/.." 2>/dev/null || cd /verif
+if [ "$R" != "/repo" ]; then export VERIF_REPO=$R PYTHONPATH=$R; fi
+TAG=$(basename $R)
 for i in "$@"; do
   s=$(date +%s)
-  timeout ${PER_CHECK_TIMEOUT:-1500} ./check $i --tier $TIER --no-evidence > /tmp/try_seed_$i.log 2>&1; rc=$?
+  timeout ${PER_CHECK_TIMEOUT:-1500} ./check $i --tier $TIER --no-evidence > /tmp/try_seed_${TAG}_$i.log 2>&1; rc=$?
   e=$(date +%s)
-  echo "$i exit=$rc wall=$((e-s))s :: $(grep -E "^\[$i" /tmp/try_seed_$i.log | tail -1 | cut -c1-200)"
-  grep -E "^(VIOLATION|KNOWN-FINDING|HARNESS-ERROR)" /tmp/try_seed_$i.log | cut -c1-260 | head -3
+  echo "$i exit=$rc wall=$((e-s))s :: $(grep -E "^\[$i" /tmp/try_seed_${TAG}_$i.log | tail -1 | cut -c1-200)"
+  grep -E "^(VIOLATION|KNOWN-FINDING|HARNESS-ERROR)" /tmp/try_seed_${TAG}_$i.log | cut -c1-260 | head -3
 done
